@@ -296,4 +296,4 @@ def run(chk, repo, pid):
                 chk.violation(Y0, f.module.rel, f.qualname, f'loop-carried flag `{v}`',
                               'tested and cleared in an inner loop, initialised outside the outer loop', line=M.lineno,
                               advisory=True)
-    chk.instance(Y0, f'{nfun} functions of {len(mods)} anchored modules scanned for 23 defect shapes', n=nfun)
+    chk.instance(Y0, f'{nfun} functions of {len(mods)} anchored modules scanned for 24 defect shapes', n=nfun)
